@@ -421,6 +421,28 @@ static void gen_tokens(const std::vector<long long> &tokens, int maxlen, bool he
     op_fmt("", {mk_int(AnyArg::I32, 1, 1)}, true);
 }
 
+// directed numeric fields (C10/C11): widths, precisions and argument references whose numerals exercise the
+// strtol / int-narrowing paths - 2^31 and 2^32 neighbourhoods, saturation at LONG_MAX / LONG_MIN, signs, leading
+// zeros and blanks - with every closing context and argument count.  Widths that narrow to a large positive int
+// are left out (they would legitimately ask for gigabytes of padding).
+static void gen_numfields() {
+    static const char *nums[] = {"0", "1", "5", "12", "099", "2147483647", "2147483648", "4294967295", "4294967296", "4294967301", "9999999999",
+        "-1", "-3", "-5", "-4294967293", "-4294967295", "-2147483648", "-2147483649", "+2", " 2", " -2", "9223372036854775807", "9223372036854775808",
+        "18446744073709551615", "99999999999999999999", "-9223372036854775808", "-9223372036854775809", "00000000000000000000007", "4294967290"};
+    static const char *intro[] = {"", ".", "&"};
+    static const char *tails[] = {"}", "x}", "", ">}", "}z", "c}"};
+    static const char *pre[] = {"", "a", "{{"};
+    auto L = arg_lists();
+    for (const char *in : intro) for (const char *nm : nums) {
+        if (!*in) { if (nm[0] < '1' || nm[0] > '9') continue; int w = (int)strtol(nm, nullptr, 10); if (w > 2000) continue; }
+        for (const char *tl : tails) for (const char *pr : pre) {
+            Bytes f = Bytes(pr) + "{" + in + nm + tl;
+            if (!strcmp(tl, "c}") && !*in) continue;          // padding on a character conversion: documented contract assertion
+            for (size_t k = 0; k < L.size(); ++k) op_fmt(f, L[k]);
+        }
+    }
+}
+
 static const long long SBOUND[] = {0, 1, -1, 9, 10, -10, 127, 128, -128, -129, 255, 256, 32767, -32768, 65535, 65536, 2147483647LL, -2147483648LL,
                                    4294967295LL, 4294967296LL, 4294967361LL, 1114111, 1114112, 55296, LLONG_MAX, LLONG_MIN, LLONG_MIN + 1, 1000000007LL, -999999999999LL};
 static AnyArg rand_int_arg(Rng &rng) {
@@ -582,9 +604,9 @@ static void gen_floats(Rng &rng, long long count, bool heavy) {
 }
 
 static void gen_streamio(Rng &rng, long long count) {
-    static const uint32_t pool[] = {'a', 'Z', ' ', '\t', '\n', 0xE9, 0x20AC, 0x1F600, '0', 0x7F, 0xA0, 0x3000};
-    for (const auto &sc : std::vector<std::vector<uint32_t>>{{}, {'a'}, {'a', ' ', 'b'}, {' ', 'a'}, {0xE9}, {0x20AC, 0x1F600}, {'a', 0x1F600, ' ', 'b'}, {' '}, {'\t', 'x', '\n', 'y'}}) op_stream_io(sc);
-    for (long long k = 0; k < count; ++k) { std::vector<uint32_t> sc; int n = (int)rng.below(20); for (int i = 0; i < n; ++i) sc.push_back(pool[rng.below(12)]); op_stream_io(sc); }
+    static const uint32_t pool[] = {'a', 'Z', ' ', '\t', '\n', 0xE9, 0x20AC, 0x1F600, '0', 0x7F, 0xA0, 0x3000, 0};
+    for (const auto &sc : std::vector<std::vector<uint32_t>>{{}, {'a'}, {'a', ' ', 'b'}, {' ', 'a'}, {0xE9}, {0x20AC, 0x1F600}, {'a', 0x1F600, ' ', 'b'}, {' '}, {'\t', 'x', '\n', 'y'}, {0}, {'a', 0, 'b'}, {0, 'x', 0x20AC}, {'a', 'b', 0}}) op_stream_io(sc);
+    for (long long k = 0; k < count; ++k) { std::vector<uint32_t> sc; int n = (int)rng.below(20); for (int i = 0; i < n; ++i) sc.push_back(pool[rng.below(13)]); op_stream_io(sc); }
 }
 
 static void gen_file(const char *path) {
@@ -614,6 +636,7 @@ int main(int argc, char **argv) {
     Rng rng(seed);
     if (gen == "tokens") gen_tokens(tokens, maxlen, heavy);
     else if (gen == "fields") gen_fields(rng, count);
+    else if (gen == "numfields") gen_numfields();
     else if (gen == "layouts") gen_int_layouts();
     else if (gen == "randbytes") gen_random_bytes(rng, count);
     else if (gen == "ints") gen_ints(mode, rng, count);
